@@ -536,7 +536,7 @@ def run_histories(prop, report, tier, seed, replay=None):
         for out in obs['outs']:
             dist[f'out={out[0]}'] += 1
         owner = {'entry-lost-by-run': ['C08', 'C06'], 'entry-appeared': ['C08'], 'entry-appeared-unneeded': ['C08', 'C03'], 'cached-but-executed': ['C06', 'C03'], 'no-result-meta': ['C06'], 'result-meta-differs': ['C06', 'C03'],
-                 'other-task-served': ['C06'], 'equal-task-not-cached': ['C06', 'C07', 'C03'], 'loaded-value-differs': ['C06', 'C08'], 'uncache-left-entry': ['C08'], 'loaded-under-bust': ['C08', 'C01', 'C02'], 'stale-read-of-failed-dep': ['C02'], 'stale-dependency-value': ['C01', 'C02'],
+                 'other-task-served': ['C06'], 'equal-task-not-cached': ['C06', 'C07', 'C03'], 'loaded-value-differs': ['C06', 'C08'], 'uncache-left-entry': ['C08'], 'loaded-under-bust': ['C08', 'C01', 'C02'], 'stale-read-of-failed-dep': ['C02', 'C10'], 'stale-dependency-value': ['C01', 'C02'],
                  'foreign-task': ['C09', 'C08'], 'key-differs': ['C09', 'C08'], 'no-meta': ['C09'], 'listed-twice': ['C09', 'C08'], 'listed-not-cached': ['C08', 'C09'], 'stored-not-listed': ['C08', 'C09'], 'spurious-failure': ['C17', 'C02', 'C01', 'C06', 'C08', 'C09']}
         for sig, what in obs['problems']:
             if prop in owner.get(sig, []):
@@ -677,6 +677,15 @@ class FaultyStorage(Storage):
                     # what ProcessExecutor.stop() does to a worker on the second interrupt: SIGTERM, default disposition
                     import signal
                     import time
+                    if self.term == 'handler':
+                        # ... in an application that turns SIGTERM into SystemExit (a handler inherited by the forked worker):
+                        # the save is ended by an exception, in the worker, and whatever it does about that happens
+                        def _exit_handler(signum, frame):
+                            raise SystemExit(143)
+                        signal.signal(signal.SIGTERM, _exit_handler)
+                        os.kill(os.getpid(), signal.SIGTERM)
+                        time.sleep(10)
+                        raise SystemExit(143)
                     signal.signal(signal.SIGTERM, signal.SIG_DFL)
                     os.kill(os.getpid(), signal.SIGTERM)
                     time.sleep(10)
@@ -773,8 +782,10 @@ def _child_save(d, cache_kind, shape, n, flushed, inner_kind='local', split=Fals
     logging.getLogger('labtech').setLevel(logging.CRITICAL)
     st = FaultyStorage(_inner_storage(d, inner_kind), fail_after=n, kill=True, flushed=flushed, root=os.path.join(d, 's'), split=split, term=term)
     lab = Lab(storage=st, continue_on_failure=True, runner_backend='serial', notebook=False)
-    lab.run_tasks([fault_task(cache_kind, shape)], bust_cache=True, disable_progress=True, disable_top=True)
-    os._exit(0)
+    try:
+        lab.run_tasks([fault_task(cache_kind, shape)], bust_cache=True, disable_progress=True, disable_top=True)
+    finally:
+        os._exit(0)
 
 
 class LineFault:
@@ -849,7 +860,7 @@ def run_fault(fc):
         if fc['crash']:
             ctx = multiprocessing.get_context('fork')
             p = ctx.Process(target=_child_save, args=(d, fc['cache'], fc['shape'], fc['n'], fc['flushed'], fc.get('inner', 'local'),
-                                                      bool(fc.get('split')), bool(fc.get('term'))))
+                                                      bool(fc.get('split')), fc.get('term') or False))
             p.start()
             p.join(60)
         else:
@@ -858,6 +869,7 @@ def run_fault(fc):
             lab = Lab(storage=st, continue_on_failure=True, runner_backend='serial', notebook=False)
             import contextlib
             lf = LineFault(fc['line'], fc.get('exc', 'exception')) if 'line' in fc else None
+            same_lab_before = bool(lab.is_cached(t))       # the Lab that is about to run the save has already looked at the entry
             try:
                 with (lf if lf is not None else contextlib.nullcontext()):
                     res = lab.run_tasks([t], bust_cache=True, disable_progress=True, disable_top=True)
@@ -868,9 +880,16 @@ def run_fault(fc):
                 fc['_line_events'], fc['_fired'], fc['_where'] = lf.count, lf.fired, lf.where
         lab2 = Lab(storage=inner, runner_backend='serial', notebook=False)
         cached = bool(lab2.is_cached(t))
+        cached_same_lab = None
+        if not fc['crash']:
+            st.fail_after = 10 ** 9
+            try:
+                cached_same_lab = bool(lab.is_cached(t))       # ... and what that same Lab object says afterwards
+            except BaseException as e:   # noqa
+                cached_same_lab = 'raised ' + repr(e)[:80]
         loaded = None
         load_error = None
-        if cached:
+        if cached or cached_same_lab is True:
             try:
                 v = t._lt.cache.load_result_with_meta(inner, t).value
                 new_value = NEW_VALUES.get((fc['cache'], fc['shape']))
@@ -882,14 +901,14 @@ def run_fault(fc):
             listed = any(x == t for x in lab2.cached_tasks([type(t)]))
         except BaseException as e:   # noqa
             listed = 'raised ' + repr(e)[:80]
-        return dict(cached=cached, loaded=loaded, load_error=load_error, listed=listed, reported_failed=reported_failed)
+        return dict(cached=cached, loaded=loaded, load_error=load_error, listed=listed, reported_failed=reported_failed, cached_same_lab=cached_same_lab)
     finally:
         shutil.rmtree(d, ignore_errors=True)
 
 
 def emit_fcase(fc, obs, wm, wd):
     return ('{| fc_overwrite := %s; fc_wm := %d; fc_wd := %d; fc_n := %d; fc_crash := %s; fc_flushed := %s; '
-            'fc_cached := %s; fc_loaded := %s |}' % (g_bool(fc['overwrite']), wm, wd, fc['n'], g_bool(fc['crash']),
+            'fc_cached := %s; fc_loaded := %s |}' % (g_bool(fc['overwrite']), wm, wd, fc['n'], g_bool(fc['crash'] and fc.get('term') != 'handler'),
                                                      g_bool(fc['flushed']), g_bool(obs['cached']), g_opt(obs['loaded'])))
 
 
@@ -939,6 +958,8 @@ def run_faults(prop, report, tier, seed, replay=None):
                     if crash and n < len(trace) and old != 'large':
                         # the writer is terminated by SIGTERM (what the second interrupt does) instead of dying on the spot
                         fcs.append(dict(cache=cache, shape=shape, n=n, overwrite=overwrite, old=old, crash=True, flushed=False, term=True))
+                        # ... or, where SIGTERM is turned into SystemExit by a handler the worker inherited, by an exception
+                        fcs.append(dict(cache=cache, shape=shape, n=n, overwrite=overwrite, old=old, crash=True, flushed=True, term='handler'))
                         if trace[n] == 'write':
                             # ... or dies in the middle of the write call that would have been effect n+1
                             fcs.append(dict(cache=cache, shape=shape, n=n, overwrite=overwrite, old=old, crash=True, flushed=True, split=True))
@@ -964,6 +985,8 @@ def run_faults(prop, report, tier, seed, replay=None):
                              dict(fault=fc, observed=obs))
         if obs['cached'] and obs['loaded'] is None:
             bad = ('cached-but-unloadable', f"after the {'kill' if crash else 'failed save'} the task is reported as cached but loading fails: {obs['load_error']}")
+        elif obs.get('cached_same_lab') is True and obs['loaded'] is None:
+            bad = ('cached-but-unloadable', f"after the failed save the Lab object that ran it still reports the task as cached (a fresh Lab does not), and loading fails: {obs['load_error']}")
         elif obs['listed'] is True and obs['loaded'] is None:
             bad = ('listed-but-unloadable', 'cached_tasks lists the task but it cannot be loaded')
         elif isinstance(obs['listed'], str):
@@ -975,6 +998,8 @@ def run_faults(prop, report, tier, seed, replay=None):
                                               f"{'the new value' if obs['loaded'] == 2 else obs['load_error'] or obs['loaded']}")
         if bad:
             sig = f'{prop}:{crash_class(fc, trace)}' if crash else f'{prop}:{bad[0]}'
+            if fc.get('term') == 'handler':
+                sig = f'{prop}:sigterm-handler:{bad[0]}'
             report.violation(sig, f"{bad[1]} [{crash_class(fc, trace)}; cache={fc['cache']}, result={fc['shape']}, effects completed={fc['n']}, flushed={fc['flushed']}]",
                              dict(fault=fc, observed=obs))
         if (fc['n'] < len(trace) or crash) and not fc.get('split'):
@@ -1007,6 +1032,8 @@ def run_faults(prop, report, tier, seed, replay=None):
                 bad = ('loads-wrong-value', 'the entry loads, but as a value that is neither the old nor the new result')
             elif obs['cached'] and obs['loaded'] is None:
                 bad = ('cached-but-unloadable', f"the task is reported as cached but loading fails: {obs['load_error']}")
+            elif obs.get('cached_same_lab') is True and obs['loaded'] is None:
+                bad = ('cached-but-unloadable', f"the Lab object that ran the failed save still reports the task as cached (a fresh Lab does not), and loading fails: {obs['load_error']}")
             elif obs['listed'] is True and obs['loaded'] is None:
                 bad = ('listed-but-unloadable', 'cached_tasks lists the task but it cannot be loaded')
             elif isinstance(obs['listed'], str):
@@ -1032,7 +1059,7 @@ def run_faults(prop, report, tier, seed, replay=None):
         traces_validated_against_impl=len(terms), correspondence_mismatches=len(bad),
         rule=('every storage-effect boundary of a save (mkdir, open, each write call, close; metadata then data) x result '
               'shape (small, multi-frame, unpicklable at depth) x cache format (PickleCache, a JSON BaseCache) x first save / '
-              'overwrite' + (' x buffered data lost / flushed; the writer is a forked process ended by os._exit, by SIGTERM (default disposition), or in the middle of a write call' if crash else
+              'overwrite' + (' x buffered data lost / flushed; the writer is a forked process ended by os._exit, by SIGTERM (default disposition; or turned into SystemExit by an inherited handler), or in the middle of a write call' if crash else
                              '; the fault is an exception raised by the storage, the save runs inside the real run_or_load_task') +
               '; quick samples the write-call boundaries; non-trivial = at least one effect completed' +
               ('' if crash else '; plus an exception / KeyboardInterrupt raised at executed lines of cache.py and storage.py below BaseCache.save '
